@@ -100,3 +100,73 @@ Example C11_renorm_nonvacuous :
   s_cur ex_big = 2147483638 /\ r_ret ex_r3 = 47 /\ s_cur (r_ctx ex_r3) = 65599 /\
   strict_valid (ex_dict ++ ex_b1) (r_out ex_r3) = Some ex_b2.
 Proof. exact ex_renorm. Qed.
+
+(* ================================================================ HC, lz4mid levels (compression levels 1 and 2)
+   Model.HcMidStream = the streaming layer of lib/lz4hc.c for the lz4mid strategy (LZ4_compress_HC_continue(_destSize),
+   LZ4_saveDictHC, LZ4_loadDictHC, resets, LZ4HC_setExternalDict, overlap trimming, 2 GB reload, dictCtx bookkeeping) around
+   the parser model Model.HcMid.  Out of the model (the run is then not covered from that call on): levels >= 3 and calls that
+   reach the dictionary-context SEARCH (usingDictCtxHc).
+   - C11_hc_mid_stream: for ALL operation lists that stay in the model and respect [hstream_pre] (per-call ranges, context not
+     dirty, and before each streaming call the bytes the call will use as history - after its own prelude - are the tail of
+     the decoder-side history H), every successful block decodes with any decoder window of >= 65535 bytes: strictly
+     (end conditions) for LZ4_compress_HC_continue and the one-shot entry points, to the consumed prefix for
+     LZ4_compress_HC_continue_destSize; ret <= capacity; capacity >= LZ4_compressBound => success.
+   - C11_hc_mid_continue: one call: invariants kept, write high-water mark <= capacity (limited modes), factorisation.
+   - C11_hc_mid_decodes: one successful call, decoder side, and [hhist_invd] for H ++ consumed bytes afterwards
+     ([dc]: the attached lz4mid-level dictionary context searched in place, LZ4MID_searchExtDict; its prefix comes first).
+   - C11_hc_mid_write_block: ANY placement of the next block keeps the precondition (the HC overlap trimming covers every
+     overlap - this is the statement the seeded change C11_3 breaks); C11_hc_mid_saveDict: LZ4_saveDictHC keeps it for the
+     stream's OWN bytes; with a dictionary context attached: C12_hc_mid_saveDict_attached (fix F18). *)
+From LZ4V Require Import Model.HcEmit Model.HcMid Model.HcMidStream Proofs.HcMidStreamProofs Proofs.HcMidStreamHist Proofs.HcMidStreamExamples.
+
+Theorem C11_hc_mid_stream :
+  forall ops st H, hstate_inv st -> hstream_pre st H ops -> hstream_claim st H ops.
+Proof. exact hstream_roundtrip. Qed.
+Print Assumptions C11_hc_mid_stream.
+
+Theorem C11_hc_mid_continue :
+  forall m c src n cap lim ret consumed out hw c',
+  hmem_ok m -> hs_ok c -> k_dirty (hs_core c) = false -> 0 < src -> 0 <= n < 2147483648 -> 0 <= cap ->
+  hs_continue_generic m c src n cap lim = Some (HRes ret consumed out hw c') ->
+  exists ke dc, hs_effective m c src n = Some (ke, dc) /\ k_ready ke src /\ dc_ready dc /\ is_mid (k_level (hs_core c)) = true /\
+                call_post m ke dc src n cap lim ret consumed out hw c'.
+Proof. exact hs_continue_generic_sound. Qed.
+Print Assumptions C11_hc_mid_continue.
+
+Theorem C11_hc_mid_decodes :
+  forall m ke dc src n cap lim ret consumed out hw c' H,
+  k_ready ke src -> dc_ready dc -> call_post m ke dc src n cap lim ret consumed out hw c' -> hhist_invd m ke dc H -> 0 < ret ->
+  (forall K, 65535 <= Z.of_nat K -> spec_decode (lastn K H) out = Some (load_list m src (Z.to_nat consumed))) /\
+  (lim <> FillOutput ->
+   forall K, 65535 <= Z.of_nat K -> strict_valid (lastn K H) out = Some (load_list m src (Z.to_nat consumed))) /\
+  hhist_invd m (hs_core c') (hs_dctx c') (H ++ load_list m src (Z.to_nat consumed)).
+Proof. exact hs_call_decodes. Qed.
+Print Assumptions C11_hc_mid_decodes.
+
+Theorem C11_hc_mid_write_block :
+  forall m c src bs ke dc H,
+  pre_inv c -> hs_dctx c = None -> 0 < src ->
+  hs_effective (store_list m src bs) c src (Z.of_nat (length bs)) = Some (ke, dc) ->
+  hhist_inv m (hs_core c) H ->
+  dc = None /\ hhist_invd (store_list m src bs) ke dc H.
+Proof. exact hs_write_block_hist. Qed.
+Print Assumptions C11_hc_mid_write_block.
+
+Theorem C11_hc_mid_saveDict :
+  forall m c a n H,
+  hmem_ok m -> hs_ok c -> 0 < a -> hhist_inv m (hs_core c) H ->
+  hhist_inv (fst (fst (hs_saveDict m c a n))) (hs_core (snd (fst (hs_saveDict m c a n)))) H.
+Proof. exact hs_saveDict_hist. Qed.
+Print Assumptions C11_hc_mid_saveDict.
+
+(* a concrete lz4mid run meets every precondition: loadDictHC, block against the dictionary (external segment), contiguous
+   block, saveDictHC, block against the saved bytes, destSize with a 12-byte budget (34 of 63 bytes consumed, stream re-anchored),
+   a failing call (capacity 10: dirty), LZ4_resetStreamHC_fast, a block *)
+Example C11_hc_mid_pre_satisfiable : hstate_inv (ex_m, ex_hc0) /\ hstream_pre (ex_m, ex_hc0) [] ex_hops.
+Proof. exact (conj ex_hstate ex_hstream_pre). Qed.
+Example C11_hc_mid_nonvacuous :
+  htrace (ex_m, ex_hc0) ex_hops =
+  [Some (81, 0); Some (20, 78); Some (18, 63); Some (100, 0); Some (28, 78); Some (12, 34); Some (0, 78); Some (0, 0); Some (73, 78)] /\
+  strict_valid ex_dict (ex_hout ex_hst1 (HContinue 3000 78 200)) = Some ex_b1 /\
+  strict_valid [] (ex_hout ex_hst1 (HContinue 3000 78 200)) = None.
+Proof. exact (conj ex_htrace ex_hresults). Qed.
